@@ -67,7 +67,15 @@ except RuntimeError as ex:
 # then they also will have identical compressed weights.
 WeightCompressionConfig = namedtuple(
     "WeightCompressionConfig",
-    ["npu_block_type", "ofm_block_depth", "ofm_depth_step", "dilation", "weight_value_id", "ifm_bitdepth"],
+    [
+        "npu_block_type",
+        "ofm_block_depth",
+        "ofm_depth_step",
+        "dilation",
+        "weight_value_id",
+        "ifm_bitdepth",
+        "flipped",
+    ],
 )
 
 ScaleCompressionConfig = namedtuple("ScaleCompressionConfig", ["scale_value_id", "ifm_scale", "ofm_scale"])
@@ -132,14 +140,15 @@ class CompressedWeightCache:
 
 
 def create_weight_compression_config(
-    weight_tens, npu_block_type, ofm_block_depth, ofm_depth_step, dilation, ifm_bitdepth
+    weight_tens, npu_block_type, ofm_block_depth, ofm_depth_step, dilation, ifm_bitdepth, flipped=False
 ):
     # Note: for an ofm block only its depth is used in weight compression.
     # And block depth > ofm depth gives same result as block depth == ofm depth
     # The IFM bit depth selects the IFM block depth of the weight stream and the block traversal
+    # flipped: the weights of a transposed convolution are reversed in H and W before they are encoded
     block_depth = min(ofm_block_depth, weight_tens.values.shape[-1])
     return WeightCompressionConfig(
-        npu_block_type, block_depth, ofm_depth_step, dilation, weight_tens.value_id, ifm_bitdepth
+        npu_block_type, block_depth, ofm_depth_step, dilation, weight_tens.value_id, ifm_bitdepth, flipped
     )
 
 
@@ -337,6 +346,7 @@ def encode_weight_and_scale_tensor(
         hash(str(depth_offsets)),
         kernel.dilation,
         op.inputs[0].dtype.size_in_bits(),
+        op.type == Op.Conv2DBackpropInputSwitchedBias,
     )
 
     scc = ScaleCompressionConfig(scale_tens and scale_tens.value_id, ifm_scale, ofm_scale)
